@@ -423,6 +423,7 @@ fn main() {
             reg_enum!(jobs, "shift_all", enum_all, body; [0, 1, 2, 3, 4, 5, 6, 7, 8]);
             w_all_wide!(reg_gen!(jobs, "shift", 10000, strat, body;));
             w_giant!(reg_gen!(jobs, "shift", 600, strat, body;));
+            w_dense!(reg_gen!(jobs, "shift", 1000, strat, body;));
         },
         |_| Map::new(),
     );
